@@ -26,6 +26,21 @@ func specDefault(t *rapid.T) WorldSpec {
 	return spec
 }
 
+// withSkew: in a third of the worlds the oracle pool starts far from its target weights (the traded asset's
+// price moved by a large factor after the pool was created) and its rebalance treasury holds both assets, so
+// that weight-recovery bonuses (swaps and single-sided joins in the improving direction) are paid from the
+// first block on.
+func withSkew(base func(*rapid.T) WorldSpec) func(*rapid.T) WorldSpec {
+	return func(t *rapid.T) WorldSpec {
+		spec := base(t)
+		if UniformDraw(t, "skew", 3) == 0 {
+			spec.SkewPrices = map[string]string{"ATOM": []string{"0.5", "0.9", "25", "60"}[UniformDraw(t, "skewprice", 4)]}
+			spec.FundTreasury = []string{"1000000", "50000000000"}[UniformDraw(t, "skewfund", 2)]
+		}
+		return spec
+	}
+}
+
 // withBurner: in half of the worlds the burner module is live (its epoch is one the chain really runs) and two or three of the
 // funded denoms have bank metadata, so that what users send to the zero address is really burnt.
 func withBurner(base func(*rapid.T) WorldSpec) func(*rapid.T) WorldSpec {
@@ -71,7 +86,7 @@ func okCount(h *History, kinds ...string) int {
 
 var ProfileC01 = &Profile{
 	ID: "C01", Name: "amm-mixed", Weights: mixedWeights(), MinBlocks: 5, MaxBlocks: 40, MaxTxs: 5,
-	Spec: specDefault, Check: CheckC01,
+	Spec: withSkew(specDefault), Check: CheckC01,
 	Rule: "history with >=2 writer kinds on pools (amm swap/join/exit plus perpetual or leveragelp) and >=10 successful pool-mutating txs",
 	NonTrivial: func(h *History) bool {
 		amm := okCount(h, "amm.swap_in", "amm.swap_out", "amm.swap_in_2hop", "amm.swap_out_2hop", "amm.swap_by_denom", "amm.join", "amm.exit")
@@ -106,7 +121,7 @@ var ProfileC02 = &Profile{
 
 // chain-level part of C05: join/exit dominated histories, swaps and price moves only now and then
 var ProfileC05 = &Profile{
-	ID: "C05", Name: "lp-value", MinBlocks: 6, MaxBlocks: 40, MaxTxs: 4, Spec: specDefault, Check: CheckC05Chain,
+	ID: "C05", Name: "lp-value", MinBlocks: 6, MaxBlocks: 40, MaxTxs: 4, Spec: withSkew(specDefault), Check: CheckC05Chain,
 	Weights: map[string]int{"amm.join": 16, "amm.exit": 18, "leveragelp.open": 5, "leveragelp.close": 4, "amm.swap_in": 3, "amm.swap_out": 2,
 		"oracle.feed_price": 2, "perpetual.open": 1, "perpetual.close": 2, "stablestake.bond": 2, "bank.send": 1},
 	Rule: "history with >=3 judged pool-blocks (only joins/exits, unchanged prices, no perpetual exposure) of which >=1 after an exit, and >=1 successful single-denom exit",
@@ -118,7 +133,7 @@ var ProfileC05 = &Profile{
 // chain-level part of C03: swap-dominated histories (several swaps per block against the same pools, both
 // directions and forms), few price moves, almost no perpetual exposure
 var ProfileC03 = &Profile{
-	ID: "C03", Name: "swap-value", MinBlocks: 6, MaxBlocks: 40, MaxTxs: 6, Spec: specDefault, Check: CheckC03Chain,
+	ID: "C03", Name: "swap-value", MinBlocks: 6, MaxBlocks: 40, MaxTxs: 6, Spec: withSkew(specDefault), Check: CheckC03Chain,
 	Weights: map[string]int{"amm.swap_in": 14, "amm.swap_out": 14, "amm.swap_in_2hop": 4, "amm.swap_out_2hop": 4, "amm.swap_by_denom": 3, "amm.join": 4, "amm.exit": 4,
 		"oracle.feed_price": 2, "perpetual.open": 1, "perpetual.close": 2, "leveragelp.open": 1, "bank.send_to_pool": 1},
 	Rule: "history with >=3 judged pool-blocks (only swaps/joins/exits, unchanged prices, no perpetual exposure) and >=1 block with >=2 successful swaps",
